@@ -116,7 +116,8 @@ def sessions_of(seed, population='core'):
         classes = set(doc_classes)
         e0 = lines[first]
         spines_here = [p['spine'] for p in tracker[id(e0)]]
-        if len(spines_here) != len(set(spines_here)) or ({c['k'] for c in e0['cells']} & {'split', 'join', 'term'}):
+        open_split = any(p['depth'] > 0 for p in tracker[id(e0)])          # a split not (yet) undone by a join, even if a branch ended
+        if open_split or len(spines_here) != len(set(spines_here)) or ({c['k'] for c in e0['cells']} & {'split', 'join', 'term'}):
             classes.add('start_inside_split')
         log, text_out = excerpt_log(doc, a, b, gov, kw)
         out.append({'log': log, 'text': text, 'classes': sorted(classes), 'seed': seed, 'tags': [population, f'range {a}-{b}'],
